@@ -218,3 +218,53 @@ def path_list_sizes(ns, no, what):
                 if got != want:
                     return "%d segments, overlaps %s: %s links, expected %s" % (a, ov, got, want)
     return True
+
+
+def from_file_passes_arguments():
+    """Gfa.from_file against Gfa(text) on files that contradict / agree with the version given explicitly, at every level"""
+    import tempfile, os
+    docs = {"gfa1": "H\tVN:Z:1.0\nS\ta\t*\nL\ta\t+\ta\t-\t*\n", "gfa2": "H\tVN:Z:2.0\nS\ta\t10\t*\nE\t*\ta+\ta-\t0\t2\t8\t10$\t*\n", "headeronly1": "H\tVN:Z:1.0\n", "seg2": "S\ta\t10\t*\n"}
+    for name, text in docs.items():
+        for version in (None, "gfa1", "gfa2"):
+            for vlevel in (0, 1, 2, 3):
+                def run(f):
+                    try:
+                        x = f()
+                        return ("ok", x.version, x._vlevel, str(x))
+                    except gfapy.Error as e:
+                        return ("err", type(e).__name__)
+                a = run(lambda: gfapy.Gfa(text, version=version, vlevel=vlevel))
+                fd, path = tempfile.mkstemp(suffix=".gfa")
+                try:
+                    with os.fdopen(fd, "w") as fh:
+                        fh.write(text)
+                    b = run(lambda: gfapy.Gfa.from_file(path, version=version, vlevel=vlevel))
+                finally:
+                    os.unlink(path)
+                if a != b:
+                    return "document %s version=%s vlevel=%d: Gfa(text) gives %s, from_file gives %s" % (name, version, vlevel, a[:3], b[:3])
+    return True
+
+
+def header_split_cases():
+    """headers carrying tags whose declared datatype differs from the default of their Python value, and repeated tags: every split line
+    carries (name, declared datatype, value) of its tag"""
+    tags = [("xa", "A", "c"), ("xj", "J", [1, 2, 3]), ("xf", "f", 3), ("xz", "Z", "5"), ("xi", "i", 7), ("xk", "J", [0.5, 2.5]), ("xh", "H", gfapy.ByteArray([1, 2]))]
+    for vlevel in (0, 1, 2, 3):
+        for k in range(1, len(tags) + 1):
+            h = gfapy.Line("H", vlevel=vlevel)
+            for n, d, v in tags[:k]:
+                h.set_datatype(n, d); h.set(n, v)
+            h.add("xi", 9, "i")
+            want = [(n, d, v) for n, d, v in tags[:k] if n != "xi"] + ([("xi", "i", 7), ("xi", "i", 9)] if k >= 5 else [("xi", "i", 9)])
+            got = []
+            for s in h._split():
+                if s.vlevel != vlevel:
+                    return "split line built at vlevel %s instead of %s" % (s.vlevel, vlevel)
+                if len(s.tagnames) != 1:
+                    return "split line with tags %s" % s.tagnames
+                n = s.tagnames[0]
+                got.append((n, s.get_datatype(n), s.get(n)))
+            if sorted(map(repr, got)) != sorted(map(repr, want)):
+                return "vlevel %d: split gives %r, expected %r" % (vlevel, got, want)
+    return True
